@@ -107,14 +107,23 @@ def _probe_grade(factory, grade, pseed, dtype, nper, separable, linear, rec, lab
     prob = GradedPoly(grade, pseed, nper=nper, separable=separable, linear=linear)
     worst = 0.0
     accepted = 0
-    for h in STEPS:
-        ok, dT, y1, info = _one_exact_step(factory, prob, dtype, h, separable)
-        if not ok:
-            rec.bump("probe_not_accepted")
+    for h0 in STEPS:
+        # exactness holds for EVERY step size: when the Newton iteration of an implicit method does not converge at h,
+        # the probe is repeated at h/2, h/4 (an accepted step of at least half the requested length is used as is)
+        got = None
+        for h in (h0, h0 / 2, h0 / 4):
+            ok, dT, y1, info = _one_exact_step(factory, prob, dtype, h, separable)
+            if not ok:
+                rec.bump("probe_not_accepted")
+                continue
+            if abs(dT) < 0.5 * abs(h):
+                rec.bump("probe_step_shortened")
+                continue
+            got = (dT, y1)
+            break
+        if got is None:
             continue
-        if abs(dT) < 0.5 * abs(h):
-            rec.bump("probe_step_shortened")
-            continue
+        dT, y1 = got
         d, inc = _exact_defect(prob, dT, y1)
         if inc > 1e-3 and prob.has_top_weight():
             accepted += 1
@@ -162,9 +171,11 @@ def _run_exact(spec):
         first_bad = _first_bad(cls, g, spec, sep, False, rec, tau)
         mech = "order_condition_fails_at_grade_%s" % first_bad
         if sep:
-            lin_bad = _first_bad(cls, g, spec, True, True, rec, tau)
-            mech = "splitting_general_order_%s_quadratic_order_%s" % (
-                (first_bad - 1) if first_bad else "unknown", (lin_bad - 1) if lin_bad else "declared")
+            # several seeds: the first failing grade must not depend on the luck of one random system
+            fb = [x for x in (_first_bad(cls, g, dict(spec, pseed=spec["pseed"] + 31 * q), True, False, rec, tau) for q in range(3)) if x]
+            if first_bad:
+                fb.append(first_bad)
+            mech = "splitting_general_order_%s" % ((min(fb) - 1) if fb else "unknown")
         rec.violate("declared_order_exactness", mech, feats, defect=worst, tau=tau, first_failing_grade=first_bad)
     if sep and g == info["order"]:
         # the declared order should at least hold on the quadratic-Hamiltonian (linear, autonomous) sub-class
@@ -172,9 +183,7 @@ def _run_exact(spec):
         rec.bump("exact_linear_probes_accepted", al)
         rec.worst("exact_defect_linear", wl)
         if al and wl > tau:
-            lin_bad = _first_bad(cls, g, spec, True, True, rec, tau)
-            rec.violate("declared_order_exactness_linear", "quadratic_order_%s" % ((lin_bad - 1) if lin_bad else "unknown"),
-                        feats, defect=wl, tau=tau)
+            rec.violate("declared_order_exactness_linear", "order_on_quadratic_hamiltonians_below_declared", feats, defect=wl, tau=tau)
     return rec.out()
 
 
@@ -324,9 +333,10 @@ def _run_slope(spec):
         rec.skipped = "slope: errors at rounding floor"
         rec.bump("slope_at_floor")
         return rec.out()
-    x = np.log([a for a, _ in pts])
-    y = np.log([b for _, b in pts])
-    slope = float(np.polyfit(x, y, 1)[0])
+    # local slopes of consecutive pairs: the asymptotic regime is approached from above or below, and the finest
+    # points of implicit methods feel the Newton tolerance; a method of lower order q < p has ALL pair slopes ~ q+1
+    pair = [float(np.log(pts[i][1] / pts[i + 1][1]) / np.log(pts[i][0] / pts[i + 1][0])) for i in range(len(pts) - 1)]
+    slope = max(pair)
     rec.bump("slope_probes")
     rec.nontrivial = True
     rec.worst("slope_deficit", (p + 1) - slope)
